@@ -1048,7 +1048,7 @@ class SigningKey(object):
         if der.is_sequence(s):
             if version not in (0, 1):
                 raise der.UnexpectedDER(
-                    "expected version '0' or '1' at start of privkey, got %d"
+                    "expected version '0' or '1' at start of privkey, got 0x%x"
                     % version
                 )
 
@@ -1085,7 +1085,7 @@ class SigningKey(object):
         # The version of the ECPrivateKey must be 1.
         if version != 1:
             raise der.UnexpectedDER(
-                "expected version '1' at start of DER privkey, got %d"
+                "expected version '1' at start of DER privkey, got 0x%x"
                 % version
             )
 
